@@ -201,7 +201,9 @@ def run_rt(spec, acc):
             def body():
                 while not slow_stop[0]:
                     if clock.elapsed_beats() - clock.beats < 0.005 * tempo:
+                        _IN_TEMPO_STEP.set()        # (the prober aims at these windows)
                         time.sleep(jr.uniform(0.0005, 0.0015))
+                        _IN_TEMPO_STEP.clear()
                     yield 0.02 * tempo
             _Routine(body).play(clock, 0)
         slow_steps(tcx[0], 1)
@@ -333,6 +335,7 @@ def run_rt(spec, acc):
 
 
 _BOOMS = [0]
+_IN_TEMPO_STEP = threading.Event()
 
 
 def _boom():
@@ -377,6 +380,7 @@ def thread_sched_probes(clk, main, rng, tcx):
             # no clock given, called from this plain thread: the default clock
             # (SystemClock), starting now - whatever the clock threads are running
             p['delta'] = d = 0
+            _IN_TEMPO_STEP.wait(0.03)       # preferably while a TempoClock routine runs
             c0 = main.elapsed_time()
             if how == 'Routine.play-default-clock':
                 r.play()
